@@ -118,6 +118,14 @@ func genHist(prop string, seed uint64, tier string) *Scenario {
 		mk := func(w []uint64) VarSpec {
 			return VarSpec{Form: 1, Words: w, Exp: int32(r.rangeI(-20, 20)), Prec: uint32(len(w) * wordDigits), Mode: uint8(r.intn(6)), Neg: r.chance(0.3)}
 		}
+		if focus == "mul" && r.chance(0.6) {
+			// factors made of round words and of small words at the binary/decimal
+			// boundaries: partial sums that land exactly on the word base, products
+			// that fit 64 bits but not a decimal word
+			u = r.genWords(n, r.pick(6, 6, 7))
+			v = r.genWords(r.rangeI(2, 2*n), r.pick(6, 6, 7))
+			m = len(u) + len(v)
+		}
 		sc.Vars[0], sc.Vars[1] = mk(u), mk(v)
 		for i := 2; i < nv; i++ {
 			// receivers: precision around the quotient length, sometimes dirty
@@ -204,6 +212,16 @@ func genHist(prop string, seed uint64, tier string) *Scenario {
 		}
 		if op.Name == "MantExp" && r.chance(0.2) {
 			op.Z = -1
+		}
+		if focus == "mul" && (op.Name == "Mul" || op.Name == "FMA") && r.chance(0.7) {
+			switch r.intn(4) {
+			case 0:
+				op.A[0], op.A[1] = 0, 0 // squaring path
+			case 1:
+				op.A[0], op.A[1] = 1, 1
+			default:
+				op.A[0], op.A[1] = 0, 1
+			}
 		}
 		if focus == "div" && op.Name == "Quo" && r.chance(0.7) {
 			op.A = []int{0, 1} // the constructed pair
